@@ -78,14 +78,14 @@ class Rig:
         self.keys = [generate_session_keys(os.urandom(64)) for _ in range(4)]
         self.calls: list = []
         self.truth: dict[int, tuple] = {}     # circuit id -> flags of its last hop (the exit), as built by the rig
+        self.built: dict[int, tuple] = {}     # circuit id -> (goal hops, hops built, exit flags)
+        self.closed: set[int] = set()         # circuit ids the rig has closed
         orig = self.tc.send_data
 
         def traced(target, circuit_id, dest_address, source_address, data):
             circ = self.tc.circuits.get(circuit_id)
             # the exit's flags are taken from what the rig put into the last hop, not from Circuit.exit_flags
-            self.calls.append((circuit_id, data, None if circ is None else
-                               (circ.state, circ.goal_hops, self.truth.get(circuit_id, ()), len(circ.hops)),
-                               tuple(dest_address)))
+            self.calls.append((circuit_id, data, None if circ is None else self.snapshot(circuit_id), tuple(dest_address)))
             return orig(target, circuit_id, dest_address, source_address, data)
         self.tc.send_data = traced
         self.counter = 0
@@ -107,8 +107,24 @@ class Rig:
         self.net.inflight.clear()
         self.calls.clear()
         self.truth.clear()
+        self.built.clear()
+        self.closed.clear()
         self.counter = 0
         self.cid = 100
+
+    def snapshot(self, cid: int) -> tuple:
+        """
+        (state, goal hops, exit flags, hops built) of a circuit from the rig's own record of how it built / closed it -
+        never from the Circuit object's own properties.
+        """
+        if cid not in self.built:
+            # a circuit the TunnelEndpoint asked the tunnel community to create: nobody answers in this rig, so it has no
+            # hop and never becomes ready
+            circ = self.tc.circuits.get(cid)
+            return ("EXTENDING", circ.goal_hops if circ is not None else 0, (), 0)
+        goal, nhops, flags = self.built[cid]
+        state = "CLOSING" if cid in self.closed else "READY" if nhops >= goal else "EXTENDING"
+        return (state, goal, flags, nhops)
 
     def add_circuit(self, goal: int, nhops: int, flags: list, first_flags: list | None = None) -> None:
         from ipv8.messaging.anonymization.tunnel import Circuit, Hop
@@ -119,6 +135,7 @@ class Rig:
             c.add_hop(Hop(self.peers[k], self.keys[k], flags=hop_flags))
         self.tc.circuits[self.cid] = c
         self.truth[self.cid] = tuple(flags) if nhops else ()
+        self.built[self.cid] = (goal, nhops, self.truth[self.cid])
 
 
 async def run_word(rig: Rig, word: list, case: dict) -> tuple[bool, str]:
@@ -142,8 +159,8 @@ async def run_word(rig: Rig, word: list, case: dict) -> tuple[bool, str]:
         return snapshot is not None and snapshot[0] == "READY" and snapshot[1] == rig.cfg_hops and EXIT_IPV8 in snapshot[2]
 
     def has_qualifying() -> bool:
-        return attached and any(c.state == "READY" and c.goal_hops == rig.cfg_hops and EXIT_IPV8 in rig.truth.get(cid, ())
-                                for cid, c in tc.circuits.items())
+        return attached and any(rig.snapshot(cid)[0] == "READY" and rig.snapshot(cid)[1] == rig.cfg_hops
+                                and EXIT_IPV8 in rig.snapshot(cid)[2] for cid in tc.circuits)
 
     windows: dict[bytes, bytes] = {}      # 16-byte window of an anonymised packet -> its prefix
     raw_checked = [0]
@@ -240,9 +257,10 @@ async def run_word(rig: Rig, word: list, case: dict) -> tuple[bool, str]:
             rig.add_circuit(rig.cfg_hops, rig.cfg_hops - 1, [RELAY, EXIT_IPV8])
             state_change_since_send = True
         elif ev == "closing":
-            for c in tc.circuits.values():
-                if c.state != "CLOSING":
+            for cid, c in tc.circuits.items():
+                if cid not in rig.closed:
                     c.close("test")
+                    rig.closed.add(cid)
                     state_change_since_send = True
                     break
         elif ev == "removed":
